@@ -44,6 +44,8 @@ class Bail(Exception):
 
 NONNULL_CONSTS = set()     # dumps of `constants.NAME` expressions whose value is a literal other than None (filled by the loader)
 CLASS_METHODS = {}    # class name (defined once in the package) -> {method: (params without self, number of defaults)}
+FOREIGN = {}          # method name -> FunctionDef: methods of package classes (defined once in the whole package, not known to the rule tables,
+                      # touching only their own object) that callers in other classes / modules may have inlined
 SIGS = {}      # simple name -> parameter list, for classes (constructor, without self) and module-level functions defined once in the package
 
 
@@ -67,6 +69,50 @@ def build_signatures(trees):
                 init = [m for m in st.body if isinstance(m, ast.FunctionDef) and m.name == "__init__"]
                 out[st.name] = params_of(init[0], True) if len(init) == 1 else None
     return {k: v for k, v in out.items() if seen[k] == 1 and v is not None}
+
+
+_CONTAINER_METHODS = set(n for t in (list, dict, set, bytes, bytearray, str, tuple, frozenset, int, object) for n in dir(t)) | {
+    "put", "put_nowait", "get", "get_nowait", "qsize", "empty", "full", "join", "task_done", "acquire", "release", "locked", "close", "connect", "read", "write",
+    "send", "recv", "open", "wait", "notify", "set", "clear", "cancel", "result", "done", "flush", "seek", "tell", "readline", "drain", "shutdown", "settimeout"}
+
+
+def build_foreign(trees, known):
+    """trees: {modname: tree}."""
+    seen, out = {}, {}
+    for modname, t in trees.items():
+        for st in t.body:
+            if not isinstance(st, ast.ClassDef):
+                if isinstance(st, (ast.FunctionDef, ast.AsyncFunctionDef)):
+                    seen[st.name] = seen.get(st.name, 0) + 2
+                continue
+            for m in st.body:
+                if not isinstance(m, (ast.FunctionDef, ast.AsyncFunctionDef)):
+                    continue
+                seen[m.name] = seen.get(m.name, 0) + 1
+                q = "%s.%s.%s" % (modname, st.name, m.name)
+                if q in known or m.name in _CONTAINER_METHODS or (m.name.startswith("__") and m.name.endswith("__")) or m.decorator_list:
+                    continue
+                a = m.args
+                if a.vararg or a.kwarg or a.kwonlyargs or a.posonlyargs or not a.args or a.defaults:
+                    continue
+                if isinstance(m, ast.AsyncFunctionDef):
+                    continue
+                local = set(x.arg for x in a.args)
+                ok = True
+                for n in ast.walk(m):
+                    if isinstance(n, ast.Name) and isinstance(n.ctx, (ast.Store, ast.Del)):
+                        local.add(n.id)
+                    if isinstance(n, (ast.Yield, ast.YieldFrom, ast.Await, ast.Global, ast.Nonlocal, ast.Lambda, ast.Try, ast.With)) or (isinstance(n, (ast.FunctionDef, ast.ClassDef)) and n is not m):
+                        ok = False
+                import builtins as _b
+                for n in ast.walk(m):
+                    if isinstance(n, ast.Name) and isinstance(n.ctx, ast.Load) and n.id not in local and not hasattr(_b, n.id):
+                        ok = False          # reads a name of its own module: may mean something else where it is inlined
+                    if isinstance(n, ast.Call) and isinstance(n.func, ast.Attribute) and isinstance(n.func.value, ast.Name) and n.func.value.id == a.args[0].arg:
+                        ok = False          # calls other methods of its object: keep the call graph simple
+                if ok and _size(m.body) <= 12:
+                    out[m.name] = m
+    return {k: v for k, v in out.items() if seen.get(k) == 1}
 
 
 def build_class_methods(trees):
@@ -1231,21 +1277,24 @@ class FuncCanon(object):
             lp = blk[i]
             if not (isinstance(lp, ast.While) and not lp.orelse and len(lp.body) >= 1 and not _is_const_true(lp.test)):
                 continue
-            pre, last = blk[i - 1], lp.body[-1]
-            if isinstance(pre, (ast.If, ast.While, ast.For, ast.Try, ast.With, ast.FunctionDef, ast.AsyncFunctionDef, ast.AsyncFor, ast.AsyncWith, ast.ClassDef)):
-                continue
-            if _dump(pre) != _dump(last):
-                continue
-            if not _has_call(pre):
+            compound = (ast.If, ast.While, ast.For, ast.Try, ast.With, ast.FunctionDef, ast.AsyncFunctionDef, ast.AsyncFor, ast.AsyncWith, ast.ClassDef)
+            # the longest run (up to three simple statements) repeated before the loop and at the end of its body
+            k = 0
+            for kk in (3, 2, 1):
+                if kk <= i and kk <= len(lp.body) and all(not isinstance(x, compound) for x in blk[i - kk:i]) \
+                        and [_dump(x) for x in blk[i - kk:i]] == [_dump(x) for x in lp.body[-kk:]] and _has_call(blk[i - kk]):
+                    k = kk
+                    break
+            if not k:
                 continue          # only worthwhile for I/O statements (a read repeated before and at the end of the loop)
             if _contains_own(lp.body, ast.Continue):
                 continue
             brk = ast.copy_location(ast.Break(), lp)
             guard = ast.copy_location(ast.If(test=negate(lp.test), body=[brk], orelse=[]), lp)
             true = ast.copy_location(ast.Constant(value=True), lp.test)
-            lp.body = [last, guard] + lp.body[:-1]
+            lp.body = lp.body[-k:] + [guard] + lp.body[:-k]
             lp.test = true
-            del blk[i - 1]
+            del blk[i - k:i]
             self.bump("ROT")
             return True
         return False
@@ -1866,7 +1915,7 @@ class Inliner(object):
     def run(self):
         for _round in range(4):
             cands = self.candidates()
-            if not cands:
+            if not cands and not FOREIGN:
                 return
             any_done = False
             for cls, fn in self._functions():
@@ -1897,6 +1946,16 @@ class Inliner(object):
             if f.id in _params(caller):
                 return None
             return h, False
+        if isinstance(f, ast.Attribute) and isinstance(f.value, ast.Name) and f.attr in FOREIGN and (cls, f.attr) not in cands:
+            # a method of another package class, called on a local object that this function never rebinds
+            r = f.value.id
+            cps = _params(caller)
+            nstores = sum(1 for n, _ in _fn_nodes(caller) if isinstance(n, ast.Name) and n.id == r and isinstance(n.ctx, (ast.Store, ast.Del)))
+            if (r in cps and nstores == 0 and not (cps and r == cps[0])) or (r not in cps and nstores == 1):
+                h = FOREIGN[f.attr]
+                if self._inlinable_def(h):
+                    return h, True
+            return None
         if isinstance(f, ast.Attribute) and isinstance(f.value, ast.Name) and cls is not None and (cls, f.attr) in cands:
             h = cands[(cls, f.attr)]
             static = any(_dec(d) == "staticmethod" for d in h.decorator_list)
@@ -2199,7 +2258,7 @@ class Inliner(object):
             for st in owner:
                 if isinstance(st, (ast.FunctionDef, ast.AsyncFunctionDef)) and st.name.startswith("_") and not st.name.startswith("__"):
                     q = "%s.%s%s" % (self.modname, clsname + "." if clsname else "", st.name)
-                    if q not in self.known and not refs.get(st.name) and self.stats.get("INLINE"):
+                    if q not in self.known and not refs.get(st.name) and self.stats.get("INLINE") and st.name not in FOREIGN:
                         self.stats["DROP"] = self.stats.get("DROP", 0) + 1
                         self.log.append("dropped fully inlined helper %s" % q)
                         continue
@@ -2575,6 +2634,8 @@ if __name__ == "__main__":
     SIGS.update(build_signatures(trees.values()))
     CLASS_METHODS.clear()
     CLASS_METHODS.update(build_class_methods(trees.values()))
+    FOREIGN.clear()
+    FOREIGN.update(build_foreign(trees, KNOWN))
     canonicalise(t, modname, KNOWN, st, lg)
     want = sys.argv[3:]
     for node in ast.walk(t):
